@@ -111,7 +111,7 @@ class Ctx:
         self._known = self._load_known()
         os.environ["VERIF_CHECK"] = pid + ("-" + self.worker if self.worker else "")
         if watchdog_s is None:
-            watchdog_s = 1800 if self.quick else 3 * 3600
+            watchdog_s = 3600 if self.quick else 4 * 3600   # generous: a firing watchdog is "inconclusive", never a verdict
         self._wd = threading.Timer(watchdog_s, self._watchdog_fire)
         self._wd.daemon = True
         self._wd.start()
@@ -289,7 +289,7 @@ class Ctx:
 
     def _join_workers(self):
         for name, p, out, log in self._workers:
-            budget = 1500 if self.quick else 3 * 3600
+            budget = 3300 if self.quick else 4 * 3600 - 300
             try:
                 rc = p.wait(timeout=max(60, budget - (time.time() - self.t0)))
             except subprocess.TimeoutExpired:
